@@ -9,6 +9,10 @@ instance; the characters the statement enumerates (core) and those the quantifie
           escAll puts a backslash before every escapable character of t; cdata escapes `>` (no `<`/`&` in the domain).
  (single) pre + '\\' + c + post, pre/post inert (letters, single inner spaces), c escapable, in a paragraph and inside a
           heading / list item / block quote / emphasis / strong: the character renders as c and the construct is intact.
+          Also inside real markup: link / image title, link text, image alt text, directly after a hard line break, in front of and
+          inside a reference link that has a definition; with tables: in a body / header cell directly in front of the column separator.
+ (long)   (all) on ONE text with more than 10 000 escaped characters in a single paragraph (`long_text()`, deterministic): the inline
+          stash is numbered per document and its ids outgrow four digits.
 
 Domain (from the property's quantifier; the last two lines are the reading fixed in DESIGN 5/C07): characters are
 escapables, other punctuation, letters, digits, space, line break — no `<`, no `&`, no tab/control character (tabs are
@@ -118,12 +122,29 @@ CONTEXTS = [('para', 'X', '<p>X</p>'), ('h1', '# X', '<h1>X</h1>'), ('h3-closed'
             ('quote', '> X', '<blockquote>\n<p>X</p>\n</blockquote>'), ('ul', '- X', '<ul>\n<li>X</li>\n</ul>'), ('ol', '1. X', '<ol>\n<li>X</li>\n</ol>'),
             ('em', '*X*', '<p><em>X</em></p>'), ('strong', '**X**', '<p><strong>X</strong></p>'), ('em_', '_X_', '<p><em>X</em></p>'),
             ('second-para', 'lead\n\nX', '<p>lead</p>\n<p>X</p>')]
+# contexts in which the escaped character sits inside real markup (still the first sentence of the statement: it renders as that literal
+# character and the construct around it is intact): link / image titles, link text, image alt text (attribute values: `"` is written
+# &quot;), directly after a hard line break, in front of / inside a reference link that has a definition
+CONTEXTS += [('title', '[t](/u "X")', '<p><a href="/u" title="X">t</a></p>', 'attr'),
+             ('img-title', '![a](/s "X")', '<p><img alt="a" src="/s" title="X" /></p>', 'attr'),
+             ('link-text', '[X](/u)', '<p><a href="/u">X</a></p>'),
+             ('img-alt', '![X](/s)', '<p><img alt="X" src="/s" /></p>', 'attr'),
+             ('after-hardbreak', 'lead  \nX', '<p>lead<br />\nX</p>'),
+             ('before-reflink', 'X[a][id]\n\n[id]: /u', '<p>X<a href="/u">a</a></p>'),
+             ('glued-before-ref', 'Xtext][id]\n\n[id]: /u', '<p>Xtext]<a href="/u">id</a></p>'),
+             ('reflink-text', '[a X b][id]\n\n[id]: /u', '<p><a href="/u">a X b</a></p>')]
+_TABLE = '<table>\n<thead>\n<tr>\n<th>%s</th>\n<th>%s</th>\n</tr>\n</thead>\n<tbody>\n<tr>\n<td>%s</td>\n<td>%s</td>\n</tr>\n</tbody>\n</table>'
+# with the tables extension: the character in a body / header cell, directly in front of the column separator (cells are stripped: 'strip')
+CONTEXTS_EXT = {'tables': [('table-cell', 'h1 | h2\n--- | ---\nX| b', _TABLE % ('h1', 'h2', 'X', 'b'), 'strip'),
+                           ('table-head', 'X| h2\n--- | ---\na | b', _TABLE % ('X', 'h2', 'a', 'b'), 'strip')]}
+ONE_LINE = ('h1', 'h3-closed', 'setext', 'quote', 'ul', 'ol', 'title', 'img-title', 'img-alt', 'table-cell', 'table-head')
 SHAPES = [('', ''), ('foo ', ' bar'), ('foo', 'bar'), ('foo ', ''), ('', ' bar'), ('foo', ''), ('', 'bar'), ('foo\n', ' bar'), ('foo bar\nbaz ', '\nqux'), ('fo o', 'b ar')]
 
 
-def single_cases(esc, rng=None, k=None):
+def single_cases(esc, rng=None, k=None, exts=()):
     """(context, source X, rendered X) — all of them, or k random ones"""
-    allc = [(ctx, pre, c, post) for ctx in CONTEXTS for (pre, post) in SHAPES for c in esc]
+    ctxs = CONTEXTS + [c for e in exts for c in CONTEXTS_EXT.get(e, [])]
+    allc = [(ctx, pre, c, post) for ctx in ctxs for (pre, post) in SHAPES for c in esc]
     if k is not None and rng is not None:
         allc = [rng.choice(allc) for _ in range(k)]
     for ctx, pre, c, post in allc:
@@ -135,9 +156,14 @@ def single_cases(esc, rng=None, k=None):
 def single_ok_domain(ctx, pre, post):
     """the contexts where start/end matter: emphasis delimiters need a non-space neighbour; headings strip; setext body is one line"""
     name = ctx[0]
-    if name in ('h1', 'h3-closed', 'setext', 'quote', 'ul', 'ol') and '\n' in pre + post:
+    if name in ONE_LINE and '\n' in pre + post:
         return False
     return True
+
+
+def long_text(lines=400):
+    ln = 'ab ' + ''.join(STATED_CORE) + ' cd ' + ''.join(STATED_CORE[:10])
+    return '\n'.join([ln] * lines)
 
 
 class Conv:
@@ -164,9 +190,14 @@ def check_all(conv, t):
     return (out == want), src, out, want
 
 
+def adata(t):
+    return cdata(t).replace('"', '&quot;')
+
+
 def check_single(conv, ctx, sx, rx):
     src = ctx[1].replace('X', sx)
-    want = ctx[2].replace('X', cdata(rx))
+    how = ctx[3] if len(ctx) > 3 else 'text'
+    want = ctx[2].replace('X', adata(rx) if how == 'attr' else cdata(rx.strip()) if how == 'strip' else cdata(rx))
     out = conv(src)
     return (out == want), src, out, want
 
@@ -258,11 +289,20 @@ def search(driver, rng, n):
             if any(c in conv.esc for c in t): seen.add((key, t))
             if not ok: report('all-escaped/exhaustive', conv, t, src, out, want)
         # single escape, every escapable x context x shape
-        for ctx, sx, rx in single_cases(conv.esc):
+        for ctx, sx, rx in single_cases(conv.esc, exts=conv.exts):
             cases += 1; dist['single_cases'] += 1
             ok, src, out, want = check_single(conv, ctx, sx, rx)
             seen.add((key, ctx[0], sx))
             if not ok: report('single/' + ctx[0], conv, rx, src, out, want)
+    # ONE long text: more than 10 000 escaped characters in a single paragraph (the inline stash is numbered per document; its ids outgrow
+    # four digits); deterministic, not from rng
+    t = long_text()
+    cases += 1; dist['long_text_escapes'] = sum(1 for c in t if c in convs[0].esc)
+    ok, src, out, want = check_all(convs[0], t)
+    if not ok:
+        i = next((k for k in range(min(len(out), len(want))) if out[k] != want[k]), min(len(out), len(want)))
+        viol.append({'input': 'long_text()', 'config': {'extensions': [], 'kind': 'all-escaped/long', 'unescaped_text': 'long_text()'},
+                     'observed': 'first difference at offset %d: %r' % (i, out[max(0, i - 40):i + 60]), 'required': '<p> + long_text() + </p>: %r' % want[max(0, i - 40):i + 60], 'finding': None})
     for i in range(MULT * n):
         conv = convs[rng.choice([0, 0, 1, 2, 3])]
         key = '+'.join(conv.exts) or 'core'
@@ -305,6 +345,8 @@ def search(driver, rng, n):
 def replay(witness):
     if 'late' in witness:
         return not run_history(witness)[0]
+    if witness.get('source') == 'long_text()':
+        return not check_all(Conv([]), long_text())[0]
     conv = Conv(witness.get('extensions', []))
     return conv(witness['source']) != witness['required']
 
